@@ -738,8 +738,12 @@ def model_record(ex, model, harness, params):
                     s += '1' if z3.is_true(val) else '0'
             inputs.append({'kind': kind, 'bits': s})
         elif kind == 'bool':
-            val = model.eval(v, model_completion=True) if model is not None else False
-            inputs.append({'kind': 'bool', 'b': bool(z3.is_true(val))})
+            val = model[v] if model is not None else None
+            if val is None:
+                b = __import__('random').Random(len(inputs) * 104729 + 17).random() < 0.5    # unconstrained: any value will do
+            else:
+                b = bool(z3.is_true(val))
+            inputs.append({'kind': 'bool', 'b': b})
         elif kind == 'int':
             val = model.eval(v, model_completion=True).as_signed_long() if model is not None else 0
             inputs.append({'kind': 'int', 'i': val})
